@@ -207,6 +207,9 @@ class Policy:
             return False
         if len(old_rules) != len(new_rules):
             return False
+        # an old rule named twice cannot be replaced by both of its new rules: all or nothing
+        if any(old_rules.count(rule) > 1 for rule in old_rules):
+            return False
 
         ast = self[sec][ptype]
         old_rules_index = []
